@@ -31,6 +31,7 @@ __all__ = [
 ]
 
 from exabgp.rib.route import Route
+from exabgp.bgp.message import Notify
 from exabgp.bgp.message.update.nlri import Flow
 from exabgp.bgp.message.update.attribute import AttributeCollection
 from exabgp.bgp.message.update.nlri.qualifier import RouteDistinguisher
@@ -162,6 +163,13 @@ def route(tokeniser: Any) -> list[Route]:
         new_nlri._rules_cache = flow_nlri._rules_cache
         new_nlri._packed_stale = True
         flow_nlri = new_nlri
+
+    try:
+        # packs the rules: a flow NLRI is at most 4095 bytes (RFC 8955 4.1). It was only found out when the route
+        # was indexed or sent, with a Notify
+        flow_nlri.index()
+    except Notify as exc:
+        raise ValueError(f'flow route is too large to be encoded: {exc}') from None
 
     # Create Route at the end with explicit nexthop
     return [Route(flow_nlri, attributes, nexthop=nexthop)]
